@@ -150,3 +150,12 @@ let () =
   register "cs.block_lines" (function [] -> vstrs CsRender.cs_block_lines | _ -> failwith "arity");
   register "cs.block_ref" (function [tt; structs; protos; msgs] ->
       S (CsRender.cs_block_ref (rows tt) (strs structs) (strs protos) (strs msgs)) | _ -> failwith "arity")
+
+(* C09 bridge: the boost::sml table printer of the engine model, and the text of SmlTT.gen_sml *)
+let () =
+  register "sml.print" (function [ws; ee; tt] ->
+      (match EngineSM.tt_model (rows tt) [] [] [] with
+       | Some m -> S (String.concat "" (EngineSM.sml_print m.EngineSM.sm_states m.EngineSM.sm_rows (str ee = "1") (str ws)))
+       | None -> failwith "tt_model") | _ -> failwith "arity");
+  register "sml.text" (function [ws; ee; tt] ->
+      S (SmlRender.sml_text (str ws) (str ee = "1") (EngineDomain16.table_of (rows tt))) | _ -> failwith "arity")
